@@ -27,7 +27,7 @@ ASSUMPTIONS = [
   "aliasing is detected behaviourally (E2 execution of the emitted hierarchy vs PyMTL) and by comparing the shared module "
   "text with a stand-alone translation of each instance's component",
 ]
-QUICK_S = 90
+QUICK_S = 240
 THOROUGH_S = 1500
 
 WORKER = os.path.join(os.path.dirname(os.path.abspath(__file__)), "c13_worker.py")
